@@ -51,6 +51,10 @@ def sharing_forms_model(rng, target):
     {"name": "two", "params": ["r", "A", "B"], "expr": ["+", ["call", "core", [["var", "r"], ["var", "A"], ["num", 0.3]]], ["call", "core", [["var", "r"], ["var", "B"], ["num", 0.7]]]], "breaks": []},
     {"name": "mix", "params": ["rij", "A"], "expr": ["-", ["call", "two", [["var", "rij"], ["var", "A"], ["num", 2.0]]], ["call", "core", [["*", ["num", 2.0], ["var", "rij"]], ["num", 5.0], ["var", "A"]]]], "breaks": []},
   ]
+  if rng.random() < 0.5:
+    # formulas spelling their parameters in another case than the signature (exprtk symbols are case-insensitive)
+    for f in forms:
+      f["expr"] = spec.recase_vars(f["expr"], rng)
   nr = 8 if target == "DLPOLY" else rng.choice([5, 9])
   pair = []
   k = 0
